@@ -95,6 +95,7 @@ public:
    */
   template<class T> static T logsum(T lnx, T lny)
   {
+    if (lnx == lny && std::isinf(lnx)) return lnx; // two log-zeros (or two +inf): inf - inf below would give NaN
     return (lny < lnx) ?
            lnx + std::log(1. + exp(lny - lnx)) :
            lny + std::log(1. + exp(lnx - lny));
